@@ -505,7 +505,8 @@ class E8Helpers(Engine):
             elif k == "sonic":
                 ops.append([k, [rng.choice([0, 0.0, 12.5, 400, 1e6, -0.001, -5, 3]) for _ in range(rng.randint(1, 6))]])
             else:
-                ops.append([k, rng.choice([0, 5, -3, 2.5, True, "hello", "", "a b", "tab\there", None, 1e20, "ünï"])])
+                ops.append([k, rng.choice([0, 5, -3, 2.5, True, "hello", "", "a b", "tab\there", None, 1e20, "ünï",
+                                           "\n", "line\n", "two\n\n", "a\nb", "crlf\r\n", "\r", " "])])
         return {"ops": ops, "serial_mode": serial_mode}
 
     def execute(self, case: dict) -> Outcome:
